@@ -1458,11 +1458,12 @@ class _IndexGOMixin:
             raise KeyError(f'duplicate key append attempted: {value}')
 
         # we might need to initialize map if not an increment that keeps loc_is_iloc relationship
-        initialize_map = False
+        map_new = None
         if self._map is None: # loc_is_iloc
             if not (isinstance(value, INT_TYPES)
                     and value == self._positions_mutable_count):
-                initialize_map = True
+                # built before anything is changed: raises for a label equal to one already held (1.0 and 1)
+                map_new = AutoMap((*self._labels_mutable, value))
         else:
             self._map.add(value)
 
@@ -1475,8 +1476,8 @@ class _IndexGOMixin:
 
         self._labels_mutable.append(value)
 
-        if initialize_map:
-            self._map = AutoMap(self._labels_mutable)
+        if map_new is not None:
+            self._map = map_new
 
         self._positions_mutable_count += 1
         self._recache = True
